@@ -73,8 +73,9 @@ type FaultStore struct {
 	RefreshGetKinds int
 
 	// transaction state (used by TxFaultStore only)
-	Trace   []string // "B" begin ok, "b" begin failed, "C"/"c" commit ok/failed, "R"/"r" rollback ok/failed, "W" a faulted call inside an open transaction
+	Trace   []string // "B" begin ok, "b" begin failed, "C"/"c" commit ok/failed, "R"/"r" rollback ok/failed, "W" a faulted call inside an open transaction, "X" a call inside the transaction that does not carry its context
 	open    bool
+	txID    int
 	snap    *Snap
 	txSeen  bool // some transaction was begun successfully in the armed request
 	txEnded bool
@@ -127,11 +128,20 @@ func kindErr(k int) error {
 	return errGeneric
 }
 
+type txKey struct{}
+
 // at is called at the start of every storage method. It returns the injected
 // error if this call is the chosen crash point.
-func (s *FaultStore) at(op string, kinds int, write bool, phase int) error {
+func (s *FaultStore) at(ctx context.Context, op string, kinds int, write bool, phase int) error {
 	if !s.armed {
 		return nil
+	}
+	if s.open && phase != phBegin {
+		// the transaction handle travels in the context (storage/transactional.go): a call made while the
+		// transaction is open but without its context would run outside of it in a real store
+		if id, _ := ctx.Value(txKey{}).(int); id != s.txID {
+			s.Trace = append(s.Trace, "X")
+		}
 	}
 	i := s.n
 	s.n++
@@ -165,21 +175,21 @@ func (s *FaultStore) at(op string, kinds int, write bool, phase int) error {
 // ---- authorize codes
 
 func (s *FaultStore) CreateAuthorizeCodeSession(ctx context.Context, code string, req fosite.Requester) error {
-	if err := s.at("CreateAuthorizeCodeSession", kindsAll, true, -1); err != nil {
+	if err := s.at(ctx, "CreateAuthorizeCodeSession", kindsAll, true, -1); err != nil {
 		return err
 	}
 	return s.MemoryStore.CreateAuthorizeCodeSession(ctx, code, req)
 }
 
 func (s *FaultStore) GetAuthorizeCodeSession(ctx context.Context, code string, sess fosite.Session) (fosite.Requester, error) {
-	if err := s.at("GetAuthorizeCodeSession", kindsRead, false, -1); err != nil {
+	if err := s.at(ctx, "GetAuthorizeCodeSession", kindsRead, false, -1); err != nil {
 		return nil, err
 	}
 	return s.MemoryStore.GetAuthorizeCodeSession(ctx, code, sess)
 }
 
 func (s *FaultStore) InvalidateAuthorizeCodeSession(ctx context.Context, code string) error {
-	if err := s.at("InvalidateAuthorizeCodeSession", kindsAll, true, -1); err != nil {
+	if err := s.at(ctx, "InvalidateAuthorizeCodeSession", kindsAll, true, -1); err != nil {
 		return err
 	}
 	return s.MemoryStore.InvalidateAuthorizeCodeSession(ctx, code)
@@ -188,28 +198,28 @@ func (s *FaultStore) InvalidateAuthorizeCodeSession(ctx context.Context, code st
 // ---- access tokens
 
 func (s *FaultStore) CreateAccessTokenSession(ctx context.Context, signature string, req fosite.Requester) error {
-	if err := s.at("CreateAccessTokenSession", kindsAll, true, -1); err != nil {
+	if err := s.at(ctx, "CreateAccessTokenSession", kindsAll, true, -1); err != nil {
 		return err
 	}
 	return s.MemoryStore.CreateAccessTokenSession(ctx, signature, req)
 }
 
 func (s *FaultStore) GetAccessTokenSession(ctx context.Context, signature string, sess fosite.Session) (fosite.Requester, error) {
-	if err := s.at("GetAccessTokenSession", kindsProbe, false, -1); err != nil {
+	if err := s.at(ctx, "GetAccessTokenSession", kindsProbe, false, -1); err != nil {
 		return nil, err
 	}
 	return s.MemoryStore.GetAccessTokenSession(ctx, signature, sess)
 }
 
 func (s *FaultStore) DeleteAccessTokenSession(ctx context.Context, signature string) error {
-	if err := s.at("DeleteAccessTokenSession", kindsAll, true, -1); err != nil {
+	if err := s.at(ctx, "DeleteAccessTokenSession", kindsAll, true, -1); err != nil {
 		return err
 	}
 	return s.MemoryStore.DeleteAccessTokenSession(ctx, signature)
 }
 
 func (s *FaultStore) RevokeAccessToken(ctx context.Context, requestID string) error {
-	if err := s.at("RevokeAccessToken", s.RevokeKinds, true, -1); err != nil {
+	if err := s.at(ctx, "RevokeAccessToken", s.RevokeKinds, true, -1); err != nil {
 		return err
 	}
 	return s.MemoryStore.RevokeAccessToken(ctx, requestID)
@@ -218,35 +228,41 @@ func (s *FaultStore) RevokeAccessToken(ctx context.Context, requestID string) er
 // ---- refresh tokens
 
 func (s *FaultStore) CreateRefreshTokenSession(ctx context.Context, signature, accessSignature string, req fosite.Requester) error {
-	if err := s.at("CreateRefreshTokenSession", kindsAll, true, -1); err != nil {
+	if err := s.at(ctx, "CreateRefreshTokenSession", kindsAll, true, -1); err != nil {
 		return err
 	}
 	return s.MemoryStore.CreateRefreshTokenSession(ctx, signature, accessSignature, req)
 }
 
 func (s *FaultStore) GetRefreshTokenSession(ctx context.Context, signature string, sess fosite.Session) (fosite.Requester, error) {
-	if err := s.at("GetRefreshTokenSession", s.RefreshGetKinds, false, -1); err != nil {
+	if err := s.at(ctx, "GetRefreshTokenSession", s.RefreshGetKinds, false, -1); err != nil {
+		if errors.Is(err, fosite.ErrInactiveToken) {
+			// contract: "inactive" comes with the record (the store spuriously reports the token as used)
+			if r, gerr := s.MemoryStore.GetRefreshTokenSession(ctx, signature, sess); gerr == nil {
+				return r, err
+			}
+		}
 		return nil, err
 	}
 	return s.MemoryStore.GetRefreshTokenSession(ctx, signature, sess)
 }
 
 func (s *FaultStore) DeleteRefreshTokenSession(ctx context.Context, signature string) error {
-	if err := s.at("DeleteRefreshTokenSession", kindsAll, true, -1); err != nil {
+	if err := s.at(ctx, "DeleteRefreshTokenSession", kindsAll, true, -1); err != nil {
 		return err
 	}
 	return s.MemoryStore.DeleteRefreshTokenSession(ctx, signature)
 }
 
 func (s *FaultStore) RevokeRefreshToken(ctx context.Context, requestID string) error {
-	if err := s.at("RevokeRefreshToken", s.RevokeKinds, true, -1); err != nil {
+	if err := s.at(ctx, "RevokeRefreshToken", s.RevokeKinds, true, -1); err != nil {
 		return err
 	}
 	return s.MemoryStore.RevokeRefreshToken(ctx, requestID)
 }
 
 func (s *FaultStore) RotateRefreshToken(ctx context.Context, requestID string, refreshTokenSignature string) error {
-	if err := s.at("RotateRefreshToken", kindsAll, true, -1); err != nil {
+	if err := s.at(ctx, "RotateRefreshToken", kindsAll, true, -1); err != nil {
 		return err
 	}
 	return s.MemoryStore.RotateRefreshToken(ctx, requestID, refreshTokenSignature)
@@ -255,21 +271,21 @@ func (s *FaultStore) RotateRefreshToken(ctx context.Context, requestID string, r
 // ---- PKCE
 
 func (s *FaultStore) CreatePKCERequestSession(ctx context.Context, signature string, req fosite.Requester) error {
-	if err := s.at("CreatePKCERequestSession", kindsAll, true, -1); err != nil {
+	if err := s.at(ctx, "CreatePKCERequestSession", kindsAll, true, -1); err != nil {
 		return err
 	}
 	return s.MemoryStore.CreatePKCERequestSession(ctx, signature, req)
 }
 
 func (s *FaultStore) GetPKCERequestSession(ctx context.Context, signature string, sess fosite.Session) (fosite.Requester, error) {
-	if err := s.at("GetPKCERequestSession", kindsProbe, false, -1); err != nil {
+	if err := s.at(ctx, "GetPKCERequestSession", kindsProbe, false, -1); err != nil {
 		return nil, err
 	}
 	return s.MemoryStore.GetPKCERequestSession(ctx, signature, sess)
 }
 
 func (s *FaultStore) DeletePKCERequestSession(ctx context.Context, signature string) error {
-	if err := s.at("DeletePKCERequestSession", kindsAll, true, -1); err != nil {
+	if err := s.at(ctx, "DeletePKCERequestSession", kindsAll, true, -1); err != nil {
 		return err
 	}
 	return s.MemoryStore.DeletePKCERequestSession(ctx, signature)
@@ -278,21 +294,21 @@ func (s *FaultStore) DeletePKCERequestSession(ctx context.Context, signature str
 // ---- OpenID Connect sessions
 
 func (s *FaultStore) CreateOpenIDConnectSession(ctx context.Context, code string, req fosite.Requester) error {
-	if err := s.at("CreateOpenIDConnectSession", kindsAll, true, -1); err != nil {
+	if err := s.at(ctx, "CreateOpenIDConnectSession", kindsAll, true, -1); err != nil {
 		return err
 	}
 	return s.MemoryStore.CreateOpenIDConnectSession(ctx, code, req)
 }
 
 func (s *FaultStore) GetOpenIDConnectSession(ctx context.Context, code string, req fosite.Requester) (fosite.Requester, error) {
-	if err := s.at("GetOpenIDConnectSession", kindsProbe, false, -1); err != nil {
+	if err := s.at(ctx, "GetOpenIDConnectSession", kindsProbe, false, -1); err != nil {
 		return nil, err
 	}
 	return s.MemoryStore.GetOpenIDConnectSession(ctx, code, req)
 }
 
 func (s *FaultStore) DeleteOpenIDConnectSession(ctx context.Context, code string) error {
-	if err := s.at("DeleteOpenIDConnectSession", kindsAll, true, -1); err != nil {
+	if err := s.at(ctx, "DeleteOpenIDConnectSession", kindsAll, true, -1); err != nil {
 		return err
 	}
 	return s.MemoryStore.DeleteOpenIDConnectSession(ctx, code)
@@ -301,21 +317,21 @@ func (s *FaultStore) DeleteOpenIDConnectSession(ctx context.Context, code string
 // ---- device grant
 
 func (s *FaultStore) CreateDeviceAuthSession(ctx context.Context, deviceSig, userSig string, req fosite.DeviceRequester) error {
-	if err := s.at("CreateDeviceAuthSession", kindsAll, true, -1); err != nil {
+	if err := s.at(ctx, "CreateDeviceAuthSession", kindsAll, true, -1); err != nil {
 		return err
 	}
 	return s.MemoryStore.CreateDeviceAuthSession(ctx, deviceSig, userSig, req)
 }
 
 func (s *FaultStore) GetDeviceCodeSession(ctx context.Context, signature string, sess fosite.Session) (fosite.DeviceRequester, error) {
-	if err := s.at("GetDeviceCodeSession", kindsRead, false, -1); err != nil {
+	if err := s.at(ctx, "GetDeviceCodeSession", kindsRead, false, -1); err != nil {
 		return nil, err
 	}
 	return s.MemoryStore.GetDeviceCodeSession(ctx, signature, sess)
 }
 
 func (s *FaultStore) InvalidateDeviceCodeSession(ctx context.Context, signature string) error {
-	if err := s.at("InvalidateDeviceCodeSession", kindsAll, true, -1); err != nil {
+	if err := s.at(ctx, "InvalidateDeviceCodeSession", kindsAll, true, -1); err != nil {
 		return err
 	}
 	return s.MemoryStore.InvalidateDeviceCodeSession(ctx, signature)
@@ -324,21 +340,21 @@ func (s *FaultStore) InvalidateDeviceCodeSession(ctx context.Context, signature 
 // ---- PAR
 
 func (s *FaultStore) CreatePARSession(ctx context.Context, requestURI string, req fosite.AuthorizeRequester) error {
-	if err := s.at("CreatePARSession", kindsAll, true, -1); err != nil {
+	if err := s.at(ctx, "CreatePARSession", kindsAll, true, -1); err != nil {
 		return err
 	}
 	return s.MemoryStore.CreatePARSession(ctx, requestURI, req)
 }
 
 func (s *FaultStore) GetPARSession(ctx context.Context, requestURI string) (fosite.AuthorizeRequester, error) {
-	if err := s.at("GetPARSession", kindsRead, false, -1); err != nil {
+	if err := s.at(ctx, "GetPARSession", kindsRead, false, -1); err != nil {
 		return nil, err
 	}
 	return s.MemoryStore.GetPARSession(ctx, requestURI)
 }
 
 func (s *FaultStore) DeletePARSession(ctx context.Context, requestURI string) error {
-	if err := s.at("DeletePARSession", kindsAll, true, -1); err != nil {
+	if err := s.at(ctx, "DeletePARSession", kindsAll, true, -1); err != nil {
 		return err
 	}
 	return s.MemoryStore.DeletePARSession(ctx, requestURI)
@@ -347,14 +363,14 @@ func (s *FaultStore) DeletePARSession(ctx context.Context, requestURI string) er
 // ---- clients and resource owners
 
 func (s *FaultStore) GetClient(ctx context.Context, id string) (fosite.Client, error) {
-	if err := s.at("GetClient", kindsRead, false, -1); err != nil {
+	if err := s.at(ctx, "GetClient", kindsRead, false, -1); err != nil {
 		return nil, err
 	}
 	return s.MemoryStore.GetClient(ctx, id)
 }
 
 func (s *FaultStore) Authenticate(ctx context.Context, name string, secret string) (string, error) {
-	if err := s.at("Authenticate", kindsRead, false, -1); err != nil {
+	if err := s.at(ctx, "Authenticate", kindsRead, false, -1); err != nil {
 		return "", err
 	}
 	return s.MemoryStore.Authenticate(ctx, name, secret)
@@ -544,7 +560,7 @@ var _ storage.Transactional = (*TxFaultStore)(nil)
 
 func (t *TxFaultStore) BeginTX(ctx context.Context) (context.Context, error) {
 	s := t.FaultStore
-	if err := s.at("BeginTX", kindsTx, false, phBegin); err != nil {
+	if err := s.at(ctx, "BeginTX", kindsTx, false, phBegin); err != nil {
 		s.Trace = append(s.Trace, "b")
 		return ctx, err
 	}
@@ -555,12 +571,13 @@ func (t *TxFaultStore) BeginTX(ctx context.Context) (context.Context, error) {
 	}
 	s.open = true
 	s.txSeen = true
-	return ctx, nil
+	s.txID++
+	return context.WithValue(ctx, txKey{}, s.txID), nil
 }
 
 func (t *TxFaultStore) Commit(ctx context.Context) error {
 	s := t.FaultStore
-	if err := s.at("Commit", kindsTx, false, phCommit); err != nil {
+	if err := s.at(ctx, "Commit", kindsTx, false, phCommit); err != nil {
 		// a failed commit leaves the transaction open: its writes stay visible until somebody rolls back
 		s.Trace = append(s.Trace, "c")
 		return err
@@ -573,7 +590,7 @@ func (t *TxFaultStore) Commit(ctx context.Context) error {
 
 func (t *TxFaultStore) Rollback(ctx context.Context) error {
 	s := t.FaultStore
-	err := s.at("Rollback", kindsTx, false, phRollback)
+	err := s.at(ctx, "Rollback", kindsTx, false, phRollback)
 	// A rollback whose acknowledgement is lost still aborts the transaction on the server side.
 	if s.open && s.snap != nil {
 		s.snap.Restore(s.MemoryStore)
@@ -610,6 +627,8 @@ func TraceOK(tr []string) string {
 			if open {
 				failedWrite = true
 			}
+		case "X":
+			return "storage call inside the transaction without the transaction's context"
 		case "C", "c":
 			if !open {
 				return "commit without open transaction"
